@@ -1504,7 +1504,7 @@ def oracle_c04(run, ops, impl):
 
 
 PROPS["C04"] = {
-    "modules": ["NibiruProofs.C04", "NibiruProofs.SDBNested", "NibiruProofs.SDBObs", "NibiruProofs.SDBWF"],
+    "modules": ["NibiruProofs.C04", "NibiruProofs.SDBNested", "NibiruProofs.SDBObs", "NibiruProofs.SDBWF", "NibiruProofs.SDBTx"],
     "fact_obligations": ["fact_C04_onRunStart_sequence"],
     "runs": [{"model": "sdb", "n_quick": 400, "n_thorough": 8000, "nontrivial": r"^P:ACC="}],
     "oracle": oracle_c04,
@@ -1754,7 +1754,7 @@ def cross_oracle_c03(all_runs):
 
 PROPS["C03"] = {
     "cross_oracle": cross_oracle_c03,
-    "modules": ["NibiruProofs.C03", "NibiruProofs.SDBFrames", "NibiruProofs.SDBNested", "NibiruProofs.SDBObs"],
+    "modules": ["NibiruProofs.C03", "NibiruProofs.SDBFrames", "NibiruProofs.SDBNested", "NibiruProofs.SDBObs", "NibiruProofs.SDBTx"],
     "prefix": "C03_",
     "runs": [{"model": "gspecnib", "n_quick": 150, "n_thorough": 3000, "nontrivial": r"^P:"},
              {"model": "gspecgeth", "n_quick": 150, "n_thorough": 3000, "nontrivial": r"^P:"},
